@@ -775,6 +775,30 @@ class UnytDomain:
     def obj_truth(self, it, obj):
         return MISSING
 
+    def fresh_like(self, it, v, label):
+        """an arbitrary value of the same kind as v (an argument of an earlier call of the same function)"""
+        from pyvc import np_domain as N
+        if v is None or isinstance(v, (bool, int, float, Fraction, str)):
+            return v                       # concrete values: only earlier calls with the same ones are considered
+        if isinstance(v, SObj) and v.cls.name == "Unit":
+            return make_unit(it, label)
+        if N.is_unyt_array(v):
+            return N.make_unyt_array(it, label, cls=v.cls.name)
+        if isinstance(v, N.SNd):
+            return N.make_ndarray(it, label)
+        if is_z3(v):
+            if z3.is_int(v):
+                return it.fresh_int(label)
+            if z3.is_real(v):
+                return it.fresh_real(label)
+            if z3.is_bool(v):
+                return it.fresh_bool(label)
+            if z3.is_string(v):
+                return it.fresh_str(label)
+        if isinstance(v, (tuple, list)) and not v:
+            return v
+        raise Unsupported("an arbitrary earlier argument like %r" % (v,))
+
     def memo_result(self, it, fi, r, bound):
         """a memoised function may hand out the object computed for an earlier, *equal* key
         (functools.lru_cache keyed by __eq__/__hash__): an argument object returned as (part of)
